@@ -249,11 +249,21 @@ def rule5_wrapper(ctx):
     ctx.floor('C06.5', 8)
 
 
+def rule_init_complete(ctx, fl):
+    ctx.doc('C06.6', 'initialiser completeness: every field of the barrier that myth_barrier_wait_body read(s), directly or through an inlined helper, '
+            'is written by myth_barrier_init_body (an object placed in recycled memory must not depend on its previous contents)')
+    vi = ctx.view(NATIVE, roots=['myth_barrier_init_body', 'myth_barrier_wait_body'], stops=('myth_queue_push', 'myth_queue_pop', 'myth_yield_ex_body', 'hr_gettime', 'fprintf', 'exit') + lib.SPIN_STOPS, flavour=fl)
+    n = lib.init_covers(ctx, 'C06.6', vi, 'myth_barrier_init_body', ['myth_barrier_wait_body'], 'barrier')
+    ctx.ob('C06.6', 'fields read by the operations enumerated', n >= 3, 'read set of the operations', loc='src/myth_sync_func.h', detail=str(n))
+    ctx.floor('C06.6', 5)
+
+
 def run(ctx):
     ctx.unit = 'wrap'
     rule5_wrapper(ctx)
     for fl in flavours(ctx):
         ctx.unit = fl
+        rule_init_complete(ctx, fl)
         v = ctx.view(NATIVE, roots=['myth_barrier_wait_body', 'myth_wake_many_from_stack', 'myth_block_on_stack'],
                      stops=('myth_sleep_stack_pop', 'myth_sleep_stack_push', 'myth_queue_push', 'myth_queue_pop'), flavour=fl)
         rule1(ctx, v)
@@ -265,6 +275,8 @@ def run(ctx):
 SYNC = 'src/myth_sync_func.h'
 SQ = 'src/myth_sleep_queue_func.h'
 MUTANTS = [
+    {'name': 'barrier_init forgets the arrival count (seed2 C06/m2)', 'expect': 'C06.6',
+     'edits': [(SYNC, '  /* 2 *(number of threads that reached) + invalid */\n  barrier->state = 0;\n', '')]},
     {'name': 'state reset after the wake', 'expect': 'C06.1',
      'edits': [(SYNC, "      barrier->state = 0;\t/* reset state */\n      //myth_wake_many_from_queue(barrier->sleep_q, 0, 0, c);\n      myth_wake_many_from_stack(barrier->sleep_s, 0, 0, c);",
                 "      myth_wake_many_from_stack(barrier->sleep_s, 0, 0, c);\n      barrier->state = 0;\t/* reset state */")]},
